@@ -229,7 +229,7 @@ pub fn run(ctx: &Ctx) -> Report {
     // argument vectors: arity 0..=3 over pool indices + pair index
     let mut argvs: Vec<Vec<usize>> = vec![vec![]];
     let mut cur: Vec<Vec<usize>> = vec![vec![]];
-    for _ in 0..ctx.pick(2, 3) {
+    for _ in 0..3 {
         let mut nx = vec![];
         for v in &cur {
             for i in 0..=np {
@@ -406,7 +406,7 @@ pub fn run(ctx: &Ctx) -> Report {
     rep.states = rep.acc.get("cases");
     rep.transitions = rep.acc.get("calls");
     rep.traces = rep.acc.get("cases");
-    rep.rule = format!("every unassigned opcode of 1 and 2 bytes (assigned ones classified by an independent table) and every opcode up to {maxlen} bytes over {{00 01 3f 40 7f 80 bf c0 fe ff}}, plus 16 core opcodes with EVERY argument vector of arity 0..={} over shared atoms of sizes {pool_sizes:?} and a pair (with and without an atom terminator), plus the overflow corner (multipliers around k*2^64/base and 2^32/base for bases built from the largest atoms), under both cost models, budgets {{unlimited, base, base-1}} and strict mode, called through ChiaDialect::op (plus 8 unassigned / not-enabled opcodes evaluated by run_program bare and inside extension-0 guards nested in guards of extension 0, 1 and 2, against the reference interpreter); oracle: an independent u128 implementation of the published rule (nil + (multiplier+1)*base, or failure under the six listed conditions). Non-trivial = calls where rule and implementation agree on a successful cost.", ctx.pick(2, 3));
+    rep.rule = format!("every unassigned opcode of 1 and 2 bytes (assigned ones classified by an independent table) and every opcode up to {maxlen} bytes over {{00 01 3f 40 7f 80 bf c0 fe ff}}, plus 16 core opcodes with EVERY argument vector of arity 0..={} over shared atoms of sizes {pool_sizes:?} and a pair (with and without an atom terminator), plus the overflow corner (multipliers around k*2^64/base and 2^32/base for bases built from the largest atoms), under both cost models, budgets {{unlimited, base, base-1}} and strict mode, called through ChiaDialect::op (plus 8 unassigned / not-enabled opcodes evaluated by run_program bare and inside extension-0 guards nested in guards of extension 0, 1 and 2, against the reference interpreter); oracle: an independent u128 implementation of the published rule (nil + (multiplier+1)*base, or failure under the six listed conditions). Non-trivial = calls where rule and implementation agree on a successful cost.", 3);
     rep.assumptions.push("large operands are shared atoms referenced several times (a 64 MiB atom is allocated once per worker)".into());
     rep
 }
